@@ -680,6 +680,26 @@ main(void)
              vw_log_len ? vw_log : "-");
       free(ab);
       free(bb);
+    } else if (n == 2 && !strcmp(tok[0], "N")) {
+      // N <percent-escaped path>: zix_canonical_path against realpath(3) on a small tree: d/ d/sub/ f l->d lroot->/
+      // ldang->nowhere lf->f (the case directory is the current directory)
+      int bad = mkdir("d", 0700) || mkdir("d/sub", 0700) || write_file("f", (const unsigned char*)"x", 1) ||
+                symlink("d", "l") || symlink("/", "lroot") || symlink("nowhere", "ldang") || symlink("f", "lf");
+      if (bad) {
+        puts("bad-case");
+        continue;
+      }
+      unescape_pct(tok[1]);
+      const char* p     = !strcmp(tok[1], "-") ? "" : tok[1];
+      const int   f0    = count_fds();
+      char*       canon = zix_canonical_path(&track.base, p);
+      const int   leaks = abs(count_fds() - f0);
+      char        rp[PATH_MAX];
+      char* const real  = realpath(p, rp);
+      const int   agree = (!canon && !real) || (canon && real && !strcmp(canon, real));
+      printf("canon= %s fds= %d leak= %d\n", agree ? "agrees" : (canon ? "DIFFERS" : "NULL-but-realpath-resolves"), leaks,
+             track.n_alloc - track.n_free - (canon ? 1 : 0));
+      zix_free(&track.base, canon);
     } else if (n == 3 && !strcmp(tok[0], "T")) {
       const char*  k    = tok[1];
       const size_t size = strtoul(tok[2], NULL, 10);
